@@ -1,5 +1,5 @@
 // spec -> code replay of the scenarios printed by TLC from spec/Fmm.tla (sequential executors).
-// build: g++ -std=c++17 -DDIMV=<d> -DPERIODICV=<0|1> [-DCAPV=<n>] -I/repo/src replay_fmm.cpp
+// build: g++ -std=c++17 -DDIMV=<d> -DPERIODICV=<0|1> [-DCAPV=<n>] [-DTSMWRAPV=<1|2>] -I/repo/src replay_fmm.cpp
 // usage: replay_fmm < records        (one scenario per line, see vh::Scn::parse)
 #include "fmmrun.hpp"
 int main(){
@@ -15,7 +15,15 @@ int main(){
         rep.scenarios++;
         Replayer R(rep, s);
         if(s.mode == 0) R.runSingle<TbfAlgorithm<Real, CKern, Space>>();
+#ifdef TSMWRAPV      // C18: the target/source executor with the counter (1) or the counter around the timer (2) wrapped around the bag kernel
+#if TSMWRAPV == 1
+        else R.runTsm<TbfAlgorithmTsm<Real, CKern, Space>>();
+#else
+        else R.runTsm<TbfAlgorithmTsm<Real, TbfInteractionCounter<TbfInteractionTimer<Kern>>, Space>>();
+#endif
+#else
         else R.runTsm<TbfAlgorithmTsm<Real, Kern, Space>>();
+#endif
     }
     return rep.finish("replay_fmm");
 }
